@@ -232,8 +232,20 @@ pub fn emit_tao(sim: &mut Sim, x: usize, off: usize, out: &mut Out) {
     out.lines.push(format!("tao e{} {}", sim.eid(x), off));
     let (s, e) = (sim.arena.nodes[x].start, sim.arena.nodes[x].end);
     if s <= off && off <= e {
-        for t in sim.arena.tokens_at(x, off) {
-            sim.reg(t, out);
+        let ts = sim.arena.tokens_at(x, off);
+        for t in &ts {
+            sim.reg(*t, out);
+        }
+        // the result driven as an iterator (adaptors vs. plain stepping); mostly where two tokens meet
+        const PROGS: [&str; 14] = [
+            "len next len next len next", "nth0 len next len", "nth1 len next", "next nth0 next", "nth2 len next", "len last", "next last",
+            "count", "next count", "left", "right", "next right", "nth0 nth0 nth0", "nth0 last",
+        ];
+        if ts.len() == 2 || (x + off) % 3 == 0 {
+            out.lines.push(format!("taoiter e{} {} {}", sim.eid(x), off, PROGS[(x * 7 + off) % PROGS.len()]));
+            if ts.len() == 2 {
+                out.lines.push(format!("taoiter e{} {} {}", sim.eid(x), off, PROGS[(x * 7 + off + 1 + (off % 5)) % PROGS.len()]));
+            }
         }
     }
 }
@@ -825,12 +837,18 @@ pub fn gen_fmt(seed: u64, tier: &str) -> Vec<String> {
             RefTree::Tok(10, "'single'".into()),
             RefTree::Tok(11, "ctl\u{1}\u{7f}".into()),
             RefTree::Tok(11, "long \"quoted\" text that is abbreviated\n".into()),
+            RefTree::Tok(10, "// don't touch this: it is load bearing".into()),
+            RefTree::Tok(10, "e\u{301}".into()),
+            RefTree::Tok(10, "it's".into()),
+            RefTree::Tok(11, "cafe\u{301} au lait, s'il vous plait, merci".into()),
         ],
     );
     // long (abbreviated) texts with a character that `{:?}` escapes before, inside and behind the cut window
     let esc = match esc {
         RefTree::Node(k, mut cs) => {
-            for ch in ['"', '\\', '\n', '\t'] {
+            // `'` is NOT escaped by `{:?}` of a string, a combining mark / zero-width joiner / soft hyphen / DEL IS (at any
+            // position, not only the first): whoever re-implements the quoting with another escaping routine differs here
+            for ch in ['"', '\\', '\n', '\t', '\'', '\u{301}', '\u{200d}', '\u{ad}', '\u{7f}', '\0', 'é'] {
                 for pos in [0usize, 10, 20, 21, 22, 23, 24, 27] {
                     let mut t: Vec<char> = "abcdefghijklmnopqrstuvwxyz0123".chars().collect();
                     t[pos] = ch;
@@ -1001,6 +1019,94 @@ pub fn gen_tokens(seed: u64, tier: &str) -> Vec<String> {
         }
     }
     out.lines.push(format!("cfg mask {}", u32::MAX));
+    // two languages through one cache (a cache is not tied to one `Syntax`): a raw kind that has static text in one of them
+    // only.  Tree 1 is built and read under the session's syntax, then the kind's static-ness is flipped, tree 2 is built
+    // through the same cache and read, then the table is switched back and tree 1 is read again.  Both orders: static first
+    // (kind 12, "+"), and plain first (kind 15, which becomes static "ab").
+    let m2 = if tier == "thorough" { 240 } else { 24 };
+    for i in 0..m2 {
+        let static_first = i % 2 == 0;
+        let k: u32 = if static_first { 12 } else { 15 };
+        let stext = if static_first { "+" } else { "ab" };
+        let words = ["+", "ab", "x", "", "é→", "abc"];
+        let plain = |rng: &mut Rng| RefTree::Tok(k, rng.pick(&words[..]).to_string());
+        let other = |rng: &mut Rng| match rng.below(4) {
+            0 => RefTree::Tok(10, rng.pick(&words[..]).to_string()),
+            1 => RefTree::Tok(11, stext.to_string()),
+            2 => RefTree::Tok(13, String::new()),
+            _ => RefTree::Tok(16, "ab".into()),
+        };
+        // the tree in which `k` is static / the tree in which it is not
+        let mk = |rng: &mut Rng, k_static: bool| {
+            let cnt = 2 + rng.below(4);
+            let mut cs = vec![];
+            for j in 0..cnt {
+                let t = if j == 0 || rng.chance(1, 2) { if k_static { RefTree::Tok(k, stext.to_string()) } else { plain(rng) } } else { other(rng) };
+                cs.push(if rng.chance(1, 4) { RefTree::Node(1, vec![t]) } else { t });
+            }
+            RefTree::Node(0, cs)
+        };
+        let emit = |t: &RefTree, k_static: bool, rng: &mut Rng, lines: &mut Vec<String>| {
+            fn go(t: &RefTree, k: u32, k_static: bool, rng: &mut Rng, lines: &mut Vec<String>) {
+                match t {
+                    RefTree::Tok(kk, s) => {
+                        let is_static = if *kk == k { k_static } else { static_kind(*kk) };
+                        if is_static && rng.chance(1, 2) {
+                            lines.push(format!("stok {}", kk));
+                        } else {
+                            lines.push(format!("tok {} {}", kk, hex(s)));
+                        }
+                    }
+                    RefTree::Node(kk, cs) => {
+                        lines.push(format!("start {}", kk));
+                        for c in cs {
+                            go(c, k, k_static, rng, lines);
+                        }
+                        lines.push("finish_node".into());
+                    }
+                }
+            }
+            lines.push("builder c0".into());
+            go(t, k, k_static, rng, lines);
+            lines.push("finish".into());
+        };
+        let t1 = mk(&mut rng, static_first);
+        let t2 = mk(&mut rng, !static_first);
+        out.lines.push(format!("case {}", case));
+        case += 1;
+        out.next_id = 0;
+        out.lines.push(format!("cache {}", bes[i % bes.len()]));
+        emit(&t1, static_first, &mut rng, &mut out.lines);
+        out.lines.push(format!("api {}", if i % 4 < 2 { "plain" } else { "resolved" }));
+        let read = |t: &RefTree, g: &str, out: &mut Out| {
+            let mut s = Sim::new(t, g, out);
+            s.nav(0, &["descendants_with_tokens"], out);
+            let toks: Vec<usize> = s.known().into_iter().filter(|x| s.arena.is_tok(*x)).map(|x| s.eid(x)).collect();
+            for a in &toks {
+                out.lines.push(format!("resolve e{}", a));
+                out.lines.push(format!("static_text e{}", a));
+                out.lines.push(format!("text_key e{}", a));
+            }
+            for a in &toks {
+                for b in &toks {
+                    out.lines.push(format!("text_eq e{} e{}", a, b));
+                }
+            }
+        };
+        read(&t1, "g0", &mut out);
+        let flip = |to_static: bool, lines: &mut Vec<String>| {
+            if to_static {
+                lines.push(format!("syn {} {}", k, hex(stext)));
+            } else {
+                lines.push(format!("unsyn {}", k));
+            }
+        };
+        flip(!static_first, &mut out.lines);
+        emit(&t2, !static_first, &mut rng, &mut out.lines);
+        read(&t2, "g1", &mut out);
+        flip(static_first, &mut out.lines);
+        read(&t1, "g0", &mut out);
+    }
     out.lines
 }
 
